@@ -23,8 +23,11 @@ type c08Job struct {
 func c08Ladders(tier string) []gen.Ladder {
 	if tier == "thorough" {
 		return []gen.Ladder{
-			{Alpha: gen.SigmaFull(), Depth: 3, Funcs: gen.FuncSuffixes(), FuncDepth: 2},
-			{Alpha: gen.SigmaMid(), Depth: 4, MinPrefix: 3},
+			// short paths on every document of <=5 nodes; longer ones on the documents of <=4 nodes
+			// plus the wide and big ones
+			{Alpha: gen.SigmaFull(), Depth: 2, Funcs: gen.FuncSuffixes(), FuncDepth: 2},
+			{Alpha: gen.SigmaFull(), Depth: 3, MinPrefix: 2, SmallDocs: true},
+			{Alpha: gen.SigmaMid(), Depth: 4, MinPrefix: 3, SmallDocs: true},
 		}
 	}
 	return []gen.Ladder{
@@ -227,13 +230,10 @@ func (j *c08Job) RunUnit(i int, c *run.Ctx) {
 	}
 	get := func(p *gen.Path) impl.Func { f, _ := j.parse(p); return f }
 	m := modeFloat
-	nDocs := j.ds.n()
-	if u.L.CoreDocs && j.ds.nCore > 0 {
-		nDocs = j.ds.nCore
-	}
+	docIdx := j.ds.indices(u.L)
 	for ri := range rels {
 		r := &rels[ri]
-		for di := 0; di < nDocs; di++ {
+		for _, di := range docIdx {
 			c.Tick()
 			doc := j.ds.docs[m][di]
 			ok, detail, nontrivial, calls := c08Eval(r, doc, get)
@@ -284,7 +284,7 @@ func init() {
 		},
 		Bounds: map[string]string{
 			"quick":    "paths of <=2 steps over the 50-step alphabet (+7 trailing functions) and 3 steps over the 16-step alphabet, every decomposition, every document of <=4 nodes",
-			"thorough": "paths of <=3 steps over the 50-step alphabet, 4 steps over the 16-step alphabet, every decomposition, every document of <=5 nodes",
+			"thorough": "paths of <=3 steps over the 50-step alphabet, 4 steps over the 16-step alphabet, every decomposition; paths of <=2 steps on every document of <=5 nodes, longer ones on the documents of <=4 nodes plus the wide and big documents",
 		},
 		New: newC08,
 		Replay: func(cs map[string]interface{}) (bool, string) {
